@@ -349,7 +349,8 @@ func staticKeyPrefix(addr ssa.Value) string {
 		if !ok {
 			return ""
 		}
-		return "F|" + typeKey(pt.Elem()) + "|" + path
+		_, root, cpath := canonField(pt.Elem(), path)
+		return "F|" + root + "|" + cpath
 	case *ssa.IndexAddr:
 		return "M|" + typeKey(elemTypeOfIndexable(a.X.Type())) + "|"
 	case *ssa.Global:
@@ -775,6 +776,9 @@ func (fx *FnCtx) step(st *State, fr *callFrame, ins ssa.Instruction) {
 		v := *st.val(x.X)
 		v.T = x.Type()
 		st.env[x] = &v
+		if l, ok := st.locs[x.X]; ok {
+			st.locs[x] = l // (*int32)(&s.field): the same location under another pointer type
+		}
 	case *ssa.ChangeInterface:
 		v := *st.val(x.X)
 		v.T = x.Type()
@@ -1119,11 +1123,37 @@ func (fx *FnCtx) dyntype(s string) string {
 	return "(dyntype " + s + ")"
 }
 
+// plainErrorType: a concrete type converted to error whose method set has neither Is nor Unwrap: errors.Is(e, t) is then
+// just e == t (a pointer to such a type is comparable by identity).
+func plainErrorType(from, to types.Type) bool {
+	if !isErrorType(to) {
+		return false
+	}
+	if _, isIface := from.Underlying().(*types.Interface); isIface {
+		return false
+	}
+	if _, isPtr := from.Underlying().(*types.Pointer); !isPtr {
+		return false
+	}
+	ms := types.NewMethodSet(from)
+	for i := 0; i < ms.Len(); i++ {
+		switch ms.At(i).Obj().Name() {
+		case "Is", "Unwrap":
+			return false
+		}
+	}
+	return true
+}
+
 func (fx *FnCtx) makeInterface(st *State, v *Val, from, to types.Type) *Val {
 	tag := fmt.Sprint(typeTag(from))
 	if v.K == KInt && isRefLike(from) {
 		if _, isIface := from.Underlying().(*types.Interface); !isIface {
 			fx.sol.Assert(tImp(tNot(tEq(v.S, "0")), tEq(fx.dyntype(v.S), tag)))
+		}
+		if plainErrorType(from, to) && !hasBoundVar(v.S) {
+			fx.errAxioms()
+			fx.sol.Assert("(forall ((t Int)) (! (= (errIs " + v.S + " t) (= " + v.S + " t)) :pattern ((errIs " + v.S + " t))))")
 		}
 		r := *v
 		r.T = to
@@ -1406,7 +1436,8 @@ func (fx *FnCtx) staticAssignKeys(c *Contract, cf *ssa.Function, cc *ssa.CallCom
 			for _, i := range idx {
 				ps = append(ps, fmt.Sprint(i))
 			}
-			keys = append(keys, "F|"+typeKey(pt.Elem())+"|"+strings.Join(ps, "."))
+			_, root, cpath := canonField(pt.Elem(), strings.Join(ps, "."))
+			keys = append(keys, "F|"+root+"|"+cpath)
 		case *EUnary:
 			t := typeOf(x.X)
 			if x.Op != "*" || t == nil {
